@@ -385,6 +385,7 @@ func runC04(e *Env) {
 	p := m.p
 	or := e.Oracle()
 	// the X32 mask literal
+	checkPolicyReadOnly(e, p, "E1.readonly")
 	x32mask := uint64(0)
 	for _, il := range archInfoLits(p.Pkgs[load.PkgArch]) {
 		if il.v.Name() == "X32" && il.mask != nil {
@@ -587,6 +588,7 @@ func runC05(e *Env) {
 	p := m.p
 	or := e.Oracle()
 	// label typestate problems found while linking
+	checkPolicyReadOnly(e, p, "E1.readonly")
 	for _, o := range append([]*emit.Obj{m.frag}, objList(m)...) {
 		for _, pr := range o.Problems {
 			if pr.Rule != "E1.label" {
